@@ -108,13 +108,16 @@ fn float_case(st: &mut Stats, rng: &mut Rng, rows: usize, cols: usize) {
 fn history_case(st: &mut Stats, rng: &mut Rng, rows: usize, cols: usize) {
     if rows == 0 || cols == 0 { return; }
     st.next_case();
-    let mut m = gen_sm(rng, rows, cols, 0.3, false);
+    let dens = *rng.pick(&[0.1, 0.3, 0.3, 0.6, 1.0]);
+    let zeros = rng.chance(0.3);
+    let mut m = gen_sm(rng, rows, cols, dens, zeros);
+    let hot = rng.usize(0, 10);
     let mut t = m.triplets(); rng.shuffle(&mut t);
     let mut s = match catch(|| Sparse::<Rat>::from_triplets(rows, cols, &mut t)) { Outcome::Ok(s) => s, _ => return };
     let mut log: Vec<String> = vec![format!("start {}x{} {:?}", rows, cols, m.triplets())];
-    for _ in 0..rng.usize(2, 10) {
+    for _ in 0..rng.usize(2, 14) {
         match rng.below(4) {
-            0 | 1 => { let (r, c) = (rng.usize(0, m.rows - 1), rng.usize(0, m.cols - 1)); let v = Rat::int(rng.int(-9, 9)); log.push(format!("insert({},{},{:?})", r, c, v)); m.e.insert((r, c), v); if !catch(|| s.insert(r, c, v)).is_ok() { st.violation("C07:history:insert:panic", format!("{:?}", log)); return; } }
+            0 | 1 => { let (r, c) = (rng.usize(0, m.rows - 1), if rng.bool() { hot % m.cols } else { rng.usize(0, m.cols - 1) }); let v = Rat::int(rng.int(-9, 9)); log.push(format!("insert({},{},{:?})", r, c, v)); m.e.insert((r, c), v); if !catch(|| s.insert(r, c, v)).is_ok() { st.violation("C07:history:insert:panic", format!("{:?}", log)); return; } }
             2 => { let f = Rat::int(*rng.pick(&[-2, 3, 0, -1])); log.push(format!("scale({:?})", f)); for v in m.e.values_mut() { *v = *v * f; } if !catch(|| s.scale(&f)).is_ok() { st.violation("C07:history:scale:panic", format!("{:?}", log)); return; } }
             _ => { log.push("transpose()".into()); m = m.transpose(); match catch(|| s.transpose()) { Outcome::Ok(x) => s = x, _ => { st.violation("C07:history:transpose:panic", format!("{:?}", log)); return; } } }
         }
